@@ -71,8 +71,11 @@ var ReadOps = []string{"Partitions:t", "WritablePartitions:t", "Leader:t:1", "Le
 var MoreReadOps = []string{"Partitions:u", "WritablePartitions:u", "Leader:t:0", "Leader:t:2", "InSyncReplicas:t:0", "OfflineReplicas:u:0"}
 var RefreshOps = []string{"R", "R:t", "R:u", "R:t,u"}
 
-// OtherOps: client calls that are not metadata reads but touch the broker registry
-var OtherOps = []string{"Coord:g"}
+// OtherOps: client calls that are not metadata reads but touch the broker registry, and the passing of time
+var OtherOps = []string{"Coord:g", "T"}
+
+// BackgroundEvery is Metadata.RefreshFrequency of the history layer (sarama's default).
+const BackgroundEvery = 10 * time.Minute
 
 func parseRead(op string) (Call, bool) {
 	f := strings.Split(op, ":")
@@ -156,7 +159,9 @@ func RunHistory(t *testing.T, h *HistCase) *HistResult {
 		s := NewServer(&Snaps[0])
 		sarama.PanicHandler = func(v interface{}) { panics = append(panics, fmt.Sprint(v)) }
 		ref := NewRef()
-		client, err := sarama.NewClient([]string{SeedAddr}, newConf(s, h.RM, !h.Part))
+		conf := newConf(s, h.RM, !h.Part)
+		conf.Metadata.RefreshFrequency = BackgroundEvery // the event "T" lets that much (fake) time pass
+		client, err := sarama.NewClient([]string{SeedAddr}, conf)
 		for _, r := range s.LogFrom(0) {
 			r := r
 			ref.Fold(&r)
@@ -205,6 +210,17 @@ func RunHistory(t *testing.T, h *HistCase) *HistResult {
 				}
 				o, v := doRefresh(client, s, ref, topics)
 				note(where, o, v)
+			} else if e.Op == "T" {
+				// time passes: the client's own background updater refreshes (everything, or the topics it knows)
+				n0 := s.Served()
+				time.Sleep(BackgroundEvery)
+				synctest.Wait()
+				o := &Obs{Op: "RefreshMetadata", Names: []string{"(background)"}}
+				o.Resps = s.LogFrom(n0)
+				for i := range o.Resps {
+					ref.Fold(&o.Resps[i])
+				}
+				note(where, o, nil)
 			} else if strings.HasPrefix(e.Op, "Coord:") {
 				// Coordinator(group): not judged (not a metadata read), but the client registers the broker it is told
 				n0, c0 := s.Served(), len(s.CoordsFrom(0))
